@@ -66,7 +66,7 @@ def hookvshook(prog):
                 ts.append(d["pos"][p])
         if len(ts) < 2:
             continue
-        res = model.run_cases([[2, w.encode(), ts, w.n]])[0]
+        res = model.run_cases([[2, w.encode(), [model.canon_ty(t) for t in ts], w.n]])[0]
         ms = res[2]
         if any(not ms[i][j] for i in range(len(ts)) for j in range(len(ts))):
             return True
